@@ -39,9 +39,10 @@ VARIABLES case,  \* the chosen case
           rec,   \* P: stored rows (state_rec)
           ysM,   \* M: every iterate so far, Euler/Heun of the delayed recurrence (frozen stage 2)
           ysA,   \* M: same with the "advanced" second stage for delayed terms (Heun only)
-          ncalls \* number of RHS calls so far
+          ncalls, \* number of RHS calls so far
+          histP   \* P: rows held by the DDEHistory object
 
-vars == <<case, pc, i, y, k1, y0p, k2, bufs, rec, ysM, ysA, ncalls>>
+vars == <<case, pc, i, y, k1, y0p, k2, bufs, rec, ysM, ysA, ncalls, histP>>
 
 M == case.m
 C == case.cfg
@@ -80,8 +81,12 @@ DelayedM(ys, k, e, shift) ==      \* value edge e delivers at step k (shift = 1:
   LET j == k - e.lag + shift IN
   IF e.lag = 0 THEN 0 ELSE IF j < 0 THEN 0 ELSE IF j + 1 <= Len(ys) THEN e.w * ys[j + 1][e.s] ELSE 0
 InstantM(yv, n) == SumSeq([q \in 1..Len(E) |-> IF E[q].t = n /\ E[q].lag = 0 THEN E[q].w * yv[E[q].s] ELSE 0])
+(* delayed self term  k * past(x, lag): the history returns the initial state for times before the start *)
+SelfPastM(ys, k, n, shift) ==
+  LET sd == M.sd[n]  j == k - sd.lag + shift IN
+  IF sd.k = 0 THEN 0 ELSE IF j <= 0 THEN sd.k * M.x0[n] ELSE IF j + 1 <= Len(ys) THEN sd.k * ys[j + 1][n] ELSE sd.k * ys[Len(ys)][n]
 RhsM(ys, yv, k, shift) ==
-  [n \in Nodes |-> M.c[n] + M.a[n] * yv[n] + ExtAt(n, k) + InstantM(yv, n)
+  [n \in Nodes |-> M.c[n] + M.a[n] * yv[n] + ExtAt(n, k) + InstantM(yv, n) + SelfPastM(ys, k, n, 0)
                    + SumSeq([q \in 1..Len(E) |-> IF E[q].t = n THEN DelayedM(ys, k, E[q], shift) ELSE 0])]
 VAdd(u, v) == [n \in DOMAIN u |-> u[n] + v[n]]
 VHalfSum(u, v) == [n \in DOMAIN u |-> (u[n] + v[n]) \div 2]       \* models for Heun have even slopes
@@ -105,11 +110,16 @@ SlotP(e) == IF e.lag = 0 /\ "UndelayedSiblingGetsOneStep" \in Dev /\ C.form = "n
    connection, read at the connection's own lag; there is no sentinel slot *)
 Roll(b, v) == [j \in 1..Len(b) |-> IF j = 1 THEN v ELSE b[j - 1]]       \* buf[:] = roll(buf, 1); buf[0] = v
 
+(* the DDEHistory object as the solver uses it: histP = rows recorded so far (row 1 = initial state at t = 0,
+   row j + 1 = state recorded by update((j) * dt, y)); the generated code queries hist(k*dt - tau) *)
+HistQuery(j, n) == IF j <= 0 THEN histP[1][n] ELSE IF j + 1 <= Len(histP) THEN histP[j + 1][n] ELSE histP[Len(histP)][n]
+HistTerm(k, n) == IF M.sd[n].k = 0 THEN 0 ELSE M.sd[n].k * HistQuery(k - M.sd[n].lag, n)
+
 (* one call of the generated RHS at step counter k with state yv and buffers b: returns <<dy, b'>> *)
 EvalRhsP(k, yv, b, roll) ==
   LET b2 == [s \in Nodes |-> IF HasBuffer(s) /\ roll THEN Roll(b[s], yv[s]) ELSE b[s]]
       Deliver(e) == IF HasBuffer(e.s) THEN e.w * b2[e.s][SlotP(e) + 1] ELSE e.w * yv[e.s]
-      dy == [n \in Nodes |-> M.c[n] + M.a[n] * yv[n] + ExtAt(n, k)
+      dy == [n \in Nodes |-> M.c[n] + M.a[n] * yv[n] + ExtAt(n, k) + HistTerm(k, n)
                              + SumSeq([q \in 1..Len(E) |-> IF E[q].t = n THEN Deliver(E[q]) ELSE 0])]
   IN <<dy, b2>>
 
@@ -128,6 +138,7 @@ Init == /\ case \in Cases
         /\ bufs = [s \in 1..case.m.n |-> <<>>]
         /\ rec = (IF case.cfg.solver = "scipy" THEN ExactRows(case) ELSE <<>>)
         /\ ysM = <<case.m.x0>> /\ ysA = <<case.m.x0>>
+        /\ histP = <<case.m.x0>>
 
 Setup ==  \* buffers are allocated (zero-filled) by the compile step, before the first RHS call
   [s \in Nodes |-> IF HasBuffer(s) THEN [j \in 1..BufLen(s) |-> 0] ELSE <<>>]
@@ -137,7 +148,7 @@ Store == /\ pc = "store"
             ELSE /\ pc' = "rhs1"
                  /\ rec' = IF i % C.store = 0 THEN Append(rec, y) ELSE rec
                  /\ bufs' = IF i = 0 THEN Setup ELSE bufs
-         /\ UNCHANGED <<case, i, y, k1, y0p, k2, ysM, ysA, ncalls>>
+         /\ UNCHANGED <<case, i, y, k1, y0p, k2, ysM, ysA, ncalls, histP>>
 
 Rhs1 == /\ pc = "rhs1"
         /\ LET r == EvalRhsP(i, y, bufs, TRUE) IN
@@ -145,17 +156,18 @@ Rhs1 == /\ pc = "rhs1"
              /\ y0p' = VAdd(y, r[1])
         /\ ncalls' = ncalls + 1
         /\ pc' = IF C.solver = "heun" THEN "rhs2" ELSE "adv"
-        /\ UNCHANGED <<case, i, y, k2, rec, ysM, ysA>>
+        /\ UNCHANGED <<case, i, y, k2, rec, ysM, ysA, histP>>
 
 Rhs2 == /\ pc = "rhs2"
         /\ LET r == EvalRhsP(i, y0p, bufs, "RollPerRhsCall" \in Dev) IN
              /\ k2' = r[1] /\ bufs' = r[2]
         /\ ncalls' = ncalls + 1
         /\ pc' = "adv"
-        /\ UNCHANGED <<case, i, y, k1, y0p, rec, ysM, ysA>>
+        /\ UNCHANGED <<case, i, y, k1, y0p, rec, ysM, ysA, histP>>
 
 Adv == /\ pc = "adv"
        /\ y' = IF C.solver = "euler" THEN VAdd(y, k1) ELSE VAdd(y, VHalfSum(k1, k2))
+       /\ histP' = IF "HistNotUpdated" \in Dev THEN histP ELSE Append(histP, y')       \* args[0].update((i + 1) * dt, y)
        /\ ysM' = Append(ysM, NextM(ysM, 0))
        /\ ysA' = Append(ysA, NextM(ysA, 1))
        /\ i' = i + 1
@@ -166,6 +178,8 @@ Next == Store \/ Rhs1 \/ Rhs2 \/ Adv
 Spec == Init /\ [][Next]_vars
 
 -----------------------------------------------------------------------------
+HistoryIsTrajectory == (pc = "store" /\ C.solver # "scipy" /\ "HistNotUpdated" \notin Dev) => histP = ysM \/ histP = ysA
+
 (* What run() returns (layer M): rows at every store-th step, index k*store, cutoff *)
 RowsOf(ys) == [r \in 1..(C.steps \div C.store) |-> ys[(r - 1) * C.store + 1]]
 Keep(r) == (r - 1) * C.store >= C.cut                      \* index >= cutoff
